@@ -85,7 +85,7 @@ def run(cmd, timeout=1800, **kw):
 def _sync_coq_copy():
     if COQ == COQ_SRC:
         return
-    for sub in ("theories", "proofs", "props"):
+    for sub in ("theories", "proofs", "props", "pins"):
         os.makedirs(os.path.join(COQ, sub), exist_ok=True)
         for f in os.listdir(os.path.join(COQ_SRC, sub)):
             if not f.endswith(".v") or f == "Extracted.v":
@@ -222,7 +222,7 @@ def coq_audit(prop_id):
     os.makedirs(outdir, exist_ok=True)
     try:
         r = run(["coqc", "-Q", "theories", "XcpModel", "-Q", "proofs", "XcpProofs",
-                 "-Q", "props", "XcpProps", "-o", os.path.join(outdir, prop_id + ".vo"),
+                 "-Q", "props", "XcpProps", "-Q", "pins", "XcpPins", "-o", os.path.join(outdir, prop_id + ".vo"),
                  pf], cwd=COQ, timeout=900)
     finally:
         shutil.rmtree(outdir, ignore_errors=True)
